@@ -262,10 +262,13 @@ func (i *Instance) Restart(newCasketfile Input) (inst *Instance, err error) {
 	if err != nil {
 		return i, err
 	}
+	// The new instance is serving and the old one has been stopped: the
+	// restart has succeeded, whatever the old instance's shutdown callbacks
+	// report. All of them run; their errors are logged (as at process
+	// shutdown) and do not turn the restart into a failed one.
 	for _, shutdownFunc := range i.OnShutdown {
-		err = shutdownFunc()
-		if err != nil {
-			return i, err
+		if cbErr := shutdownFunc(); cbErr != nil {
+			log.Printf("[ERROR] Shutdown callback of the replaced instance: %v", cbErr)
 		}
 	}
 
